@@ -420,6 +420,35 @@ func (e *evaluator) path(v ssa.Value) string {
 				return "local:new" + g.Name()
 			}
 		}
+	case *ssa.Extract:
+		if t, ok := e.env[v]; ok {
+			return t.String()
+		}
+		// the object part of a constructor with an "ok" result: a fresh allocation or nil at every return
+		if call, ok := x.Tuple.(*ssa.Call); ok {
+			if g := calleeOf(call); g != nil && inAnalysed(g) && len(g.Blocks) > 0 {
+				fresh, n := true, 0
+				for _, ret := range returnsOf(g) {
+					if x.Index >= len(ret.Results) {
+						fresh = false
+						break
+					}
+					switch rv := ret.Results[x.Index].(type) {
+					case *ssa.Alloc:
+						n++
+					case *ssa.Const:
+						if !rv.IsNil() {
+							fresh = false
+						}
+					default:
+						fresh = false
+					}
+				}
+				if fresh && n > 0 {
+					return "local:new" + g.Name()
+				}
+			}
+		}
 	}
 	if t, ok := e.env[v]; ok {
 		return t.String()
